@@ -219,6 +219,11 @@ class SimOracle(object):
                         self.a.incomplete = True
                     else:
                         self.viol(fam, "%s/query-invariant/%s" % (fam, " ".join(t[4:8])), " ".join(t[4:]))
+                        if fam == "C07" and "sum of held_by_process" in ln and self.time is not None \
+                                and t[4] in self.dropped_at.get(self.time, ()):
+                            # C09: "everything it held is released" - the pool's books are wrong after the drop
+                            self.viol("C09", "C09/holdings-not-released/pool-in_use",
+                                      "a process holding units of %s ended in this instant and now: %s" % (t[4], " ".join(t[4:])))
                 elif c == "H":
                     self.on_history(t)
                 elif c == "M":
